@@ -316,6 +316,19 @@ fn d45() -> Result<(), String> {
 fn d49() -> Result<(), String> {
     expect_lines(run_batch(T3, "SELECT k FROM t WHERE v IN (1.0, 7.5)", "a;1;1\nb;2;1\n"), &["k: 'a'"])
 }
+/// D53: IN compared its members with the raw derived order, not like `=`: a TIMESTAMP operand never matched a text
+/// member that `=` parses as a timestamp, and a member of another type gave false instead of the type error `=` reports
+fn d53() -> Result<(), String> {
+    const TS: &str = "CREATE TABLE t(line = '^(.+);(.*)$', line[1] => ts TIMESTAMP, line[2] => k TEXT);";
+    let input = "2020-01-01 00:00:00;a\n2021-05-05 10:00:00;b\n";
+    // `ts = '…'` parses the text; IN means the OR of `=`
+    expect_lines(run_batch(TS, "SELECT k FROM t WHERE ts = '2020-01-01 00:00:00'", input), &["k: 'a'"])?;
+    expect_lines(run_batch(TS, "SELECT k FROM t WHERE ts IN ('2020-01-01 00:00:00', '2030-01-01 00:00:00')", input), &["k: 'a'"])?;
+    expect_lines(run_batch(TS, "SELECT k FROM t WHERE ts NOT IN ('2020-01-01 00:00:00')", input), &["k: 'b'"])?;
+    // a member of another type: `k = 1` is a type error, so is `k IN (1)`
+    expect_error(run_batch(TS, "SELECT k FROM t WHERE k = 1", input))?;
+    expect_error(run_batch(TS, "SELECT k FROM t WHERE k IN (1, 2)", input))
+}
 fn d50() -> Result<(), String> {
     // year 4294969313 = 2^32 + 2017 must not silently become 2017
     expect_lines(run_batch(T3, "SELECT make_timestamp(4294969313, 1, 2, 3, 4, 5, 0, 0) AS ts FROM t", "a;1;1\n"), &["ts: NULL"])
@@ -402,6 +415,7 @@ pub fn all() -> Vec<Witness> {
         w!("D61", &["C11"], "follow mode, aggregate over a join: a line with several partners shows one table per partner, concatenated", d61),
         w!("D24", &["C08", "C11"], "aggregate DISTINCT+HAVING empties the table on refresh", d24),
         w!("D25", &["C09"], "TIMESTAMP text in a DST gap / overlap of the local zone panics (unwrap of LocalResult)", d25),
+        w!("D53", &["C03"], "IN / NOT IN do not compare their members like = (timestamp text not parsed, other types silently false)", d53),
         w!("D28", &["C09"], "date_trunc to a local midnight that does not exist panics", d28),
         w!("D26", &["C09"], "abs / unary minus / pow overflow panic", d26),
         w!("D27", &["C09", "C17"], "non-finite REAL panics in JSON output", d27),
